@@ -18,6 +18,7 @@ def run(res, programs, tier):
     for P in programs:
         if "dashu_ratio" in P.units:
             _r18_3(res, P, P.name)
+            _r18_5(res, P, P.name)
         if "dashu_float" in P.units:
             _r18_4(res, P, P.name)
     _r18_2(res, programs)
@@ -240,3 +241,59 @@ def _r18_4(res, P, cfgname):
 LEVEL = LEVEL + " Also (R18.2) ErrorBounds::error_bounds of every mode returns the interval (with open / closed ends) of values that round back to the float, tabulated against the mode's definition; (R04.1, shared) the interval end points handed to the Farey walk are reduced."
 TECHNIQUE = 'finite-domain tabulation of is_simpler_than and of the six ErrorBounds bodies against definition oracles; call-shape rule for the interval end points'
 LEVEL = LEVEL + ' Also (R18.3) simplest_in returns 0 early only when is_zero() of both end points is decided; (R18.4) the rounding-interval end points use no estimate.'
+
+
+# ---------------------------------------------------------------------------------------------
+# R18.5  simplest_from_f32 / f64 answer with the constant 0 only for the input 0: the block that builds
+# `Some(ZERO)` is dominated by the true edge of `f == 0.0` on the argument.  Any wider test (not normal, below a
+# threshold) maps non-zero inputs - subnormals - to a fraction that does not round back to them.
+def _r18_5(res, P, cfgname):
+    from . import mir
+    res.rule("R18.5", "RBig::simplest_from_f32 / f64 return the constant zero only on the true edge of `f == 0.0`")
+    n = nf = 0
+    for f in P.fns("dashu_ratio"):
+        b = f.get("mir")
+        if not b or f.get("name") not in ("simplest_from_f32", "simplest_from_f64") or f.get("kind") == "Closure":
+            continue
+        cfg = mir.cfg_of(b)
+        du = mir.defuse_of(b)
+        gates = []
+        nf += 1
+        for i, blk in enumerate(b["bbs"]):
+            t = blk["t"]
+            if t.get("k") != "switch" or [v for v, _ in t["ts"]] != ["0"]:
+                continue
+            dl = (mir.op_place(t["d"]) or {}).get("l")
+            for (b2, idx, node) in du.defs.get(dl, []):
+                if idx == "t" or node["k"] != "as" or node["rv"]["k"] != "bin" or node["rv"]["op"] != "Eq":
+                    continue
+                a, c = node["rv"]["a"], node["rv"]["b"]
+                if mir.op_const(a) is not None:
+                    a, c = c, a
+                cc = mir.op_const(c)
+                if cc is None or cc.get("ty") not in ("f32", "f64") or cc.get("s") not in ("0f32", "0f64", "-0f32", "-0f64"):
+                    continue
+                al = (mir.op_place(a) or {}).get("l")
+                roots, _ = mir.backward_slice(b, [al], through_calls=False)
+                if 1 in roots:
+                    gates.append(t["o"])
+        k = 0
+        for i, j, st in mir.iter_stmts(b):
+            if not (st["k"] == "as" and st["p"].get("l") == 0 and st["rv"]["k"] == "agg" and st["rv"].get("vn") == "Some"):
+                continue
+            ol = mir.op_local(st["rv"]["ops"][0]) if st["rv"].get("ops") else None
+            consts = [mir.op_const(node["rv"]["a"]) for (b2, idx, node) in du.defs.get(ol, []) if idx != "t" and node["k"] == "as" and node["rv"]["k"] == "use"] if ol is not None else []
+            if not any(c and str(c.get("uvp", "")).endswith("::ZERO") for c in consts):
+                continue
+            k += 1
+            n += 1
+            key = "%s|zero return #%d" % (f["p"], k)
+            if any(cfg.dominates(g, i) for g in gates):
+                res.ok("R18.5", cfgname, key, sample=dict(function=f["p"]))
+            else:
+                res.fail("R18.5", cfgname, key, "%s returns Some(ZERO) on a path not guarded by `f == 0.0`: non-zero inputs (subnormals) are answered with 0, "
+                         "which does not round back to them" % f["p"], mir.span_loc(st.get("sp") or f["sp"]))
+    # the anchor is the pair of functions; a body without a constant-zero shortcut satisfies the rule trivially
+    res.floor("R18.5", cfgname, nf, 2, "simplest_from_f32 / f64 bodies scanned")
+LEVEL = LEVEL + ' (R18.5) simplest_from_f32 / f64 return the constant zero only on the true edge of `f == 0.0`.'
+
